@@ -687,7 +687,7 @@ func runProto(o Opts, mode string) error {
 	cw.Extra = "Definition R := Eval vm_compute in rejects cases.\nPrint R.\n"
 	nRuns := map[string]int{"c02": 24, "c03": 16, "c11": 24, "c14": 24}[mode]
 	if o.Thorough() {
-		nRuns *= 8
+		nRuns *= 3
 	}
 	keyBase := 0
 	for s := 0; s < nRuns; s++ {
@@ -1096,7 +1096,7 @@ func protoProbes(cw *cq.Writer, w *World, c *pconv, lin *lineage, rng *rand.Rand
 	maxProbes := 10
 	fsEvery := 6
 	if o.Thorough() {
-		maxProbes = 60
+		maxProbes = 30
 		fsEvery = 3
 	}
 	rng.Shuffle(len(points), func(i, j int) { points[i], points[j] = points[j], points[i] })
@@ -1123,7 +1123,7 @@ func protoProbes(cw *cq.Writer, w *World, c *pconv, lin *lineage, rng *rand.Rand
 		} else {
 			nv := 3
 			if o.Thorough() {
-				nv = 8
+				nv = 5
 			}
 			for v := 0; v < nv; v++ {
 				ch := make([]tornChoice, len(d.fly))
